@@ -61,7 +61,7 @@ theorem iter_eq (s : PosPQ) :
 theorem compute_priority_boost_eq (s : PosPQ) (priority minPri maxPri r : Rat) :
     Gen.PosPQ.compute_priority_boost H gp draw s priority minPri maxPri r
       = (s, .ok (PosPQ.computeBoost s.factor priority minPri r)) := by
-  simp [pv_lt_fun, Gen.PosPQ.compute_priority_boost, PosPQ.computeBoost]
+  simp [pv_lt_fun, Gen.PosPQ.compute_priority_boost, PosPQ.computeBoost] <;> grind
 
 /-- `find` -/
 theorem find_eq (s : PosPQ) (key : Nat → Bool) (rm : Bool) :
@@ -190,8 +190,9 @@ theorem do_maintenance_loop (s : PosPQ) (limit : Int) (rest pre : List (Entry PV
       pv_priority_eq, h1, List.foldl_cons, stragIdx, isStrag, accStep]
     by_cases hc : e.pri.cls = 0
     · simp [hc]
-    · cases mn <;> cases mx <;> by_cases hl : (e.pri.insertedAt : Int) < limit <;>
-        simp [hc, hl, rat_min_comm e.pri.priority, rat_max_comm e.pri.priority]
+    · -- the running min / max may be written with min()/max() or with explicit comparisons
+      cases mn <;> cases mx <;> by_cases hl : (e.pri.insertedAt : Int) < limit <;>
+        simp [hc, hl, rat_min_comm e.pri.priority, rat_max_comm e.pri.priority] <;> grind
 
 /-- a straggler that `boost_stragglers` really boosts: base priority above `min_pri`, non-zero boost -/
 def boosts (factor minPri : Rat) (draw : Nat → Rat) (limit : Int) (e : Entry PV) : Bool :=
@@ -378,11 +379,7 @@ theorem do_maintenance_eq (s : PosPQ) :
 theorem update_counters_eq (s : PosPQ) (ins : Bool) :
     Gen.PosPQ.update_counters H gp draw s ins = (PosPQ.updateCounters H s ins draw, .ok ()) := by
   simp only [pv_lt_fun, Gen.PosPQ.update_counters, PosPQ.updateCounters, do_maintenance_eq, PQ.len, PosPQ.len]
-  cases ins with
-  | true =>
-    by_cases h : max 10 s.q.pq.length + s.lastMaint < min (s.nIns + 1) s.nRem <;> simp [h]
-  | false =>
-    by_cases h : 0 < s.q.pq.length <;> simp [h]
+  cases ins <;> grind
 
 /-- `append_pri` -/
 theorem append_pri_eq (s : PosPQ) (x : Nat) (p : Rat) :
@@ -392,7 +389,7 @@ theorem append_pri_eq (s : PosPQ) (x : Nat) (p : Rat) :
 /-- `append` -/
 theorem append_eq (s : PosPQ) (x : Nat) :
     Gen.PosPQ.append H gp draw s x = (PosPQ.append H s gp x draw, .ok ()) := by
-  simp [pv_lt_fun, Gen.PosPQ.append, PosPQ.append, PosPQ.appendPri, update_counters_eq]
+  simp [pv_lt_fun, Gen.PosPQ.append, PosPQ.append, PosPQ.appendPri, update_counters_eq, append_pri_eq]
 
 /-- `popleft`: IndexError on an empty queue (state untouched), else the popped object -/
 theorem popleft_eq (s : PosPQ) :
